@@ -24,6 +24,9 @@ CLAIMED = {
  "C04": ("exploration", "Hypothesis semantic values -> bytes via independent standards builders -> library decoder; expected-value tree comparison; exact / zero-padded / garbage-padded variants", "4 C04",
          "For 30 response formats semantic values are generated over full field widths with 0..24 descriptors, rendered by builders written from the standards (own positions and length arithmetic) and decoded by the library; every modelled key must come back, lists in order and with the right count, garbage beyond the reported length must not be reported. Known finding: multi-page MODE SENSE responses (only the first page is decoded).",
          "stdspec/responses.py; unmodelled fields are not compared (ATA IDENTIFY/signature sub-fields, PCIe routing id designator, header/sub-header contents of READ CD); standard INQUIRY has no garbage variant"),
+ "C05": ("exploration", "Hypothesis parameter dictionaries -> library composer vs independent standards builder, byte-for-byte; CDB parameter-list-length audit; iSCSI name lengths 1..223 enumerated", "4 C05",
+         "Valid parameter dictionaries for MODE SELECT 6/10, PERSISTENT RESERVE OUT (all service actions, TransportIDs of every kind) and EXTENDED COPY LID1/LID4 are generated; the composed data-out must equal, byte for byte, what builders written from SPC-4/5 produce for the same values (positions, every embedded length, zeros elsewhere) and the CDB must announce exactly its length.",
+         "stdspec/paramlists.py; permitted variants: MODE DATA LENGTH zero or MODE SENSE value, iSCSI TransportID padded to 20 bytes or not; SOP TransportIDs unmodelled"),
  "C07": ("fault_enumeration", "fault injection: generated (command, status, sense, raw-sense, re-execution) histories on SG_IO and iSCSI stand-ins + status-byte sweep through direct execute and every facade method; expected-outcome oracle", "4 C07",
          "Statuses and sense buffers are injected behind both binding stand-ins at generated positions of generated command histories; all 256 status bytes are swept through direct execute and the named/selected ones through each facade method; the oracle is the outcome table of the property (GOOD returns, CHECK CONDITION raises with the injected key/ASC/ASCQ or attaches raw sense when asked, other statuses raise their named error, the facade passes the device's exception object on).",
          "stand-ins model cython-sgio (CheckConditionError / UnspecifiedError, no status byte) and cython-iscsi (Task.status, Task.raw_sense); SG_IO non-CHECK-CONDITION failures: any exception"),
